@@ -7,12 +7,12 @@ import json
 from . import lib, progs, mpc_common as mc
 
 EXH_BITS = {"quick": 12, "thorough": 18}          # per program: log2(#inputs x #tapes) explored exhaustively
-EXH_TOTAL = {"quick": 400000, "thorough": 6000000}  # per TLC run: sum of runs over the programs of the batch
+EXH_TOTAL = {"quick": 400000, "thorough": 3000000}  # per TLC run: sum of runs over the programs of the batch
 
 
 def run(chk, mode="three"):
     tier = chk.tier
-    per_prog = 6 if tier == "quick" else 14
+    per_prog = 6 if tier == "quick" else 9
     jobs = progs.jobs(tier, chk.seed, per_prog=per_prog)
     # specification -> implementation: programs enumerated by TLC from the specification's typing relation
     # (spec/ProgGen.tla: every bit-typed program of <= 4 nodes over Add/Subtract/Multiply/Sum/Zeros/Ones), a seeded sample
@@ -22,7 +22,7 @@ def run(chk, mode="three"):
     gen = proggen.enumerate_programs(chk, "bit", 4)
     grng = random.Random(chk.seed + 4242)
     jid = max(j["id"] for j in jobs)
-    for name, pr, _tys in grng.sample(gen, min(len(gen), 120 if tier == "quick" else 1200)):
+    for name, pr, _tys in grng.sample(gen, min(len(gen), 120 if tier == "quick" else 800)):
         nin = sum(1 for nd_ in pr["graphs"][0]["nodes"] if nd_["op"] == "Input")
         for ow, outs, md in grng.sample(progs.configs(nin, "quick", grng, 6), 2 if tier == "quick" else 3):
             jid += 1
@@ -55,7 +55,7 @@ def run(chk, mode="three"):
                 exh[ring].append(r)
             else:
                 sim[ring].append(r)
-    nsim = 25 if tier == "quick" else 120      # sampled runs per program where exhaustive exploration does not fit
+    nsim = 25 if tier == "quick" else 40      # sampled runs per program where exhaustive exploration does not fit
     runs = [(ring, False, exh[ring]) for ring in (1, 2)] + [(ring, True, sim[ring]) for ring in (1, 2, 8)]
     for ring, is_sim, rs in runs:
         rs = list(rs)
